@@ -214,8 +214,11 @@ def build_harness(release=False, features=None):
     cmd = ["cargo", "build", "--offline", "--quiet"]
     if release:
         cmd.append("--release")
+    tdir = "target"
     if features:
-        cmd += ["--features", ",".join(features)]
+        # a feature build gets a target directory of its own: both binaries stay cached side by side
+        tdir = "target-" + "-".join(features)
+        cmd += ["--features", ",".join(features), "--target-dir", tdir]
     e = dict(os.environ)
     e["CARGO_NET_OFFLINE"] = "true"
     t0 = time.time()
@@ -224,14 +227,14 @@ def build_harness(release=False, features=None):
     if p.returncode != 0:
         raise ToolError("harness build failed:\n" + p.stdout[-4000:])
     log("harness built in %.1fs" % (time.time() - t0))
-    path = os.path.join(HARNESS, "target", "release" if release else "debug", "lv-harness")
+    path = os.path.join(HARNESS, tdir, "release" if release else "debug", "lv-harness")
     _built[key] = path
     return path
 
 
 def run_harness(args, stdin_text=None, timeout=1200, env=None, release=False, cwd=None,
-                allow_rc=(0,)):
-    exe = build_harness(release=release)
+                allow_rc=(0,), features=None):
+    exe = build_harness(release=release, features=features)
     e = dict(os.environ)
     e["RUST_BACKTRACE"] = "0"        # anyhow captures a backtrace per error when this is on: 5x slower
     e["RUST_LIB_BACKTRACE"] = "0"
